@@ -16,7 +16,7 @@ TRACING = [r"tracing", r"__CALLSITE", r"LevelFilter", r"DefaultCallsite", r"Inte
 NMAX = 3
 
 
-def allow_decision(e3, nets_len):
+def allow_decision(e3, nets_len, two_families=False):
     """The allowlist as the real pipeline handles it: new_http_listener(handle, addr, allowlist) builds the exporter (whatever it does
     to the list on the way), then check_tcp_allowed(&exporter, stream) decides. Networks and peer are concrete-width symbolic values
     (IPv4: address + prefix length), so code that sorts, truncates, de-duplicates or bisects the list is followed exactly."""
@@ -25,10 +25,25 @@ def allow_decision(e3, nets_len):
     configured = nets_len is not None
     L = nets_len or 0
     peer_ok = z3.Bool("peer_addr_ok")
-    ipv = z3.BitVec("peer_ip", 32)
-    addrs = [z3.BitVec(f"net{i}_addr", 32) for i in range(L)]
-    plens = [z3.BitVec(f"net{i}_prefix_len", 8) for i in range(L)]
-    rng = [z3.ULE(p, z3.BitVecVal(32, 8)) for p in plens] + [z3.Extract(31, 24, ipv) == z3.BitVecVal(127, 8)]
+    if two_families:
+        # networks of either family (address in 128 bits, an IPv4 one in the low 32), the peer is the IPv6 loopback address
+        # (the only IPv6 source address a native replay on this machine can use)
+        ipv = z3.BitVec("peer_ip", 128)
+        addrs = [z3.BitVec(f"net{i}_addr", 128) for i in range(L)]
+        plens = [z3.BitVec(f"net{i}_prefix_len", 8) for i in range(L)]
+        fams = [z3.Bool(f"net{i}_is_ipv6") for i in range(L)]
+        rng = [z3.ULE(p, z3.If(f_, z3.BitVecVal(128, 8), z3.BitVecVal(32, 8))) for p, f_ in zip(plens, fams)] + [z3.Or(f_, z3.Extract(127, 32, a) == 0) for a, f_ in zip(addrs, fams)] + [ipv == 1]
+        mknet = lambda i: MN.net2(addrs[i], plens[i], fams[i])
+        peer_val = MN.ip2(ipv, z3.BoolVal(True))
+        peer_in = lambda i: MN.contains_ip(mknet(i), (ipv, z3.BoolVal(True)))
+    else:
+        ipv = z3.BitVec("peer_ip", 32)
+        addrs = [z3.BitVec(f"net{i}_addr", 32) for i in range(L)]
+        plens = [z3.BitVec(f"net{i}_prefix_len", 8) for i in range(L)]
+        rng = [z3.ULE(p, z3.BitVecVal(32, 8)) for p in plens] + [z3.Extract(31, 24, ipv) == z3.BitVecVal(127, 8)]
+        mknet = lambda i: MN.net(addrs[i], plens[i])
+        peer_val = MN.ip(ipv)
+        peer_in = lambda i: MN.contains_ip(mknet(i), ipv)
 
     def m_peer_addr(eng, ctx, f, path, args, dty):
         return Fork([(peer_ok, Enum(0, {0: Agg({0: Native("sockaddr", None)})}, "Result")), (z3.Not(peer_ok), Enum(1, {1: Agg({0: Opaque("io::Error")})}, "Result"))])
@@ -38,7 +53,7 @@ def allow_decision(e3, nets_len):
         if not (isinstance(e, Enum) and isinstance(e.discr, int)):
             raise sym.Unsupported("map_or_else on a symbolic Result")
         return TailCall(args[2], [e.v[0].f[0]]) if e.discr == 0 else TailCall(args[1], [e.v[1].f[0]])
-    m = {r"TcpStream::peer_addr$": m_peer_addr, r"Result::map_or_else$": m_map_or_else, r"SocketAddr::ip$": lambda eng, ctx, f, path, args, dty: MN.ip(ipv),
+    m = {r"TcpStream::peer_addr$": m_peer_addr, r"Result::map_or_else$": m_map_or_else, r"SocketAddr::ip$": lambda eng, ctx, f, path, args, dty: peer_val,
          r"^std::net::TcpListener::bind$|^TcpListener::bind$": lambda *a: Enum(0, {0: Agg({0: Opaque("std listener")})}, "Result"),
          r"TcpListener::set_nonblocking$": lambda *a: Enum(0, {0: Agg({0: UNIT})}, "Result"),
          r"TcpListener::from_std$": lambda *a: Enum(0, {0: Agg({0: Opaque("tokio listener")})}, "Result"),
@@ -52,7 +67,7 @@ def allow_decision(e3, nets_len):
     new_b = P.find_fn("new_http_listener")
     chk_b = P.find("HttpListeningExporter", "check_tcp_allowed")
     ctx0 = sym.Ctx(eng, 1)
-    lst = Enum(1, {1: Agg({0: MS.lvec(tuple(MN.net(a, p) for a, p in zip(addrs, plens)))})}, "Option") if configured else Enum(0, {}, "Option")
+    lst = Enum(1, {1: Agg({0: MS.lvec(tuple(mknet(i) for i in range(L)))})}, "Option") if configured else Enum(0, {}, "Option")
 
     def script():
         r = yield ("call", new_b, [Opaque("handle"), Opaque("listen address"), lst])
@@ -79,24 +94,34 @@ def allow_decision(e3, nets_len):
             return z3.And(eng.discr_is(r.discr, k), eng.as_bool(inner)) if inner is not None else z3.BoolVal(False)
         return eng.as_bool(r)
     allowed = z3.Or(*[z3.And(l.taken(), decision(l.ret)) for l in done] or [z3.BoolVal(False)])
-    inside = z3.Or(*[MN.contains_ip(MN.net(a, p), ipv) for a, p in zip(addrs, plens)]) if L else z3.BoolVal(False)
-    tag = "none" if not configured else f"n{L}"
-    bounds = (f"new_http_listener (the exporter it builds) followed by check_tcp_allowed with its closures; allowlist " + ("not configured" if not configured else f"of {L} IPv4 network(s), any address and prefix length 0..32 (nested, overlapping, duplicated, unsorted, with host bits)")
-              + "; peer: any address in 127.0.0.0/8 (so that the case can be replayed over loopback) or unavailable")
+    inside = z3.Or(*[peer_in(i) for i in range(L)]) if L else z3.BoolVal(False)
+    tag = ("none" if not configured else f"n{L}") + ("_v6peer" if two_families else "")
+    bounds = (f"new_http_listener (the exporter it builds) followed by check_tcp_allowed with its closures; allowlist " + ("not configured" if not configured else f"of {L} {'IPv4 or IPv6' if two_families else 'IPv4'} network(s), any address and prefix length 0..32 (nested, overlapping, duplicated, unsorted, with host bits)")
+              + ("; peer: ::1 (prefix lengths up to 128 for IPv6 networks)" if two_families else "; peer: any address in 127.0.0.0/8 (so that the case can be replayed over loopback)") + " or unavailable")
 
     def dotted(x):
         return ".".join(str((x >> s) & 255) for s in (24, 16, 8, 0))
 
     def on_model(ob, model):
         ev = lambda t: model.eval(t, model_completion=True)
-        nets = [f"{dotted(ev(a).as_long())}/{ev(p).as_long()}" for a, p in zip(addrs, plens)]
+        if two_families:
+            import ipaddress
+            nets = [(str(ipaddress.IPv6Address(ev(a).as_long())) if z3.is_true(ev(f_)) else dotted(ev(a).as_long() & 0xFFFFFFFF)) + f"/{ev(p).as_long()}" for a, p, f_ in zip(addrs, plens, fams)]
+        else:
+            nets = [f"{dotted(ev(a).as_long())}/{ev(p).as_long()}" for a, p in zip(addrs, plens)]
         pip = ev(ipv).as_long()
-        row = {"allowlist": nets if configured else None, "peer": dotted(pip), "peer_addr_ok": z3.is_true(ev(peer_ok)), "peer_inside_a_listed_network": z3.is_true(ev(inside)), "code_allows": z3.is_true(ev(allowed))}
+        row = {"allowlist": nets if configured else None, "peer": ("::1" if two_families else dotted(pip)), "peer_addr_ok": z3.is_true(ev(peer_ok)), "peer_inside_a_listed_network": z3.is_true(ev(inside)), "code_allows": z3.is_true(ev(allowed))}
         ob.sample = row
         inputs = {"configured": int(configured), "n": L, "peer_ok": int(row["peer_addr_ok"]), "peer": pip, "inside": int(row["peer_inside_a_listed_network"]), "allows": int(row["code_allows"])}
         for i, (a, p) in enumerate(zip(addrs, plens)):
-            inputs[f"addr{i}"] = ev(a).as_long()
+            av = ev(a).as_long()
+            inputs[f"addr{i}"] = av & 0xFFFFFFFFFFFFFFFF
             inputs[f"plen{i}"] = ev(p).as_long()
+            if two_families:
+                inputs[f"addrhi{i}"] = av >> 64
+                inputs[f"v6_{i}"] = int(z3.is_true(ev(fams[i])))
+        if two_families:
+            inputs["v6peer"] = 1
         replay_native(ob, "c18_allow", ob.name.split(":")[1], inputs)
     nm = f"c18_allow_{tag}"
     specs = [dict(name=f"{nm}:witness", desc="the decision is reached", bounds=bounds, cons=rng + [z3.Or(*[l.taken() for l in done] or [z3.BoolVal(False)])], expect_unsat=False),
@@ -571,6 +596,7 @@ def syntax_table(e3):
 def run(tier, seed, t0):
     e3 = _e3.E3("C18")
     jobs = [(f"c18_allow_{'none' if n is None else 'n' + str(n)}", (lambda e, n=n: allow_decision(e, n))) for n in ([None, 1, 2, 3] if tier == "quick" else [None, 1, 2, 3, 4])]
+    jobs += [(f"c18_allow_n{n}_v6peer", (lambda e, n=n: allow_decision(e, n, True))) for n in ([1, 2] if tier == "quick" else [1, 2, 3])]
     jobs += [(f"c18_loop_{'none' if n is None else 'n' + str(n)}", (lambda e, n=n: serve_loop(e, n))) for n in ([None, 2] if tier == "quick" else [None, 1, 2, 3])]
     for nm, fn in jobs + [("c18_response", response_table), ("c18_syntax", syntax_table)]:
         if os.environ.get("VERIF_C18_ONLY") and os.environ["VERIF_C18_ONLY"] != nm:
